@@ -1,0 +1,124 @@
+//go:build verif
+// +build verif
+
+package cmd
+
+import (
+	"context"
+	"fmt"
+	"time"
+
+	"github.com/knz/shakespeare/pkg/crdb/log"
+	"github.com/knz/shakespeare/pkg/crdb/stop"
+)
+
+// VerifSlowCollector runs the real audit loop against a collector that is SLOW:
+// the channel to the collector has the given (small) capacity and the consumer
+// takes one event every `delay`.  It returns the audition reports the consumer
+// received, in order, as "auditor:code" strings.  Whatever the collector's
+// pace, every report must reach it (the audit loop waits for it).
+func VerifSlowCollector(cfgText string, events []VerifEvent, chanCap int, delay time.Duration) (reports []string, problem string) {
+	defer func() {
+		if r := recover(); r != nil {
+			problem = fmt.Sprintf("panic: %v", r)
+		}
+	}()
+	cfg, err := verifParseString(cfgText, nil)
+	if err != nil {
+		return nil, "parse: " + err.Error()
+	}
+	ctx := context.Background()
+	stopper := stop.NewStopper()
+	defer stopper.Stop(ctx)
+	collCh := make(chan collectorEvent, chanCap)
+	eventCh := make(chan auditableEvent)
+	finalTs := 0.0
+	for _, e := range events {
+		if e.Ts > finalTs {
+			finalTs = e.Ts
+		}
+	}
+	rep := &verifReporter{start: time.Now()}
+	au := &audition{
+		r:       rep,
+		cfg:     cfg,
+		stopper: stopper,
+		logger:  log.NewSecondaryLogger(ctx, nil, "audit", true, false),
+		res:     &auditionResults{},
+		st:      makeAuditionState(cfg),
+		eventCh: eventCh,
+		collCh:  collCh,
+	}
+	defer log.VerifRelease(au.logger)
+	consumed := make(chan struct{})
+	go func() {
+		defer close(consumed)
+		for cev := range collCh {
+			time.Sleep(delay)
+			switch ev := cev.(type) {
+			case terminate:
+				return
+			case *auditionReport:
+				reports = append(reports, fmt.Sprintf("%s:%d", ev.auditor, int(ev.result)))
+			}
+		}
+	}()
+	done := make(chan error, 1)
+	go func() {
+		defer func() {
+			if r := recover(); r != nil {
+				done <- fmt.Errorf("panic: %v", r)
+			}
+		}()
+		done <- au.audit(ctx)
+	}()
+	send := func(ev auditableEvent) bool {
+		rep.start = time.Now().Add(-time.Duration(finalTs * float64(time.Second)))
+		select {
+		case eventCh <- ev:
+			return true
+		case err := <-done:
+			if err != nil {
+				problem = "audit: " + err.Error()
+			}
+			return false
+		case <-time.After(60 * time.Second):
+			problem = "audit loop stuck"
+			return false
+		}
+	}
+	running := true
+	for _, e := range events {
+		if !running {
+			break
+		}
+		switch e.Kind {
+		case "mood":
+			running = send(&moodChange{ts: e.Ts, newMood: e.Mood})
+		case "sig":
+			ev := &sigEvent{ts: e.Ts}
+			for _, v := range e.Values {
+				vn := varName{actorName: v.Actor, sigName: v.Sig}
+				var val interface{} = v.Str
+				typ := sigTypEvent
+				if v.IsNum {
+					val = v.Num
+					typ = sigTypScalar
+				}
+				ev.values = append(ev.values, auditableValue{typ: typ, varName: vn, val: val})
+			}
+			running = send(ev)
+		}
+	}
+	if running && send(terminate{}) {
+		if err := <-done; err != nil {
+			problem = "audit: " + err.Error()
+		}
+	}
+	select {
+	case <-consumed:
+	case <-time.After(60 * time.Second):
+		problem = "collector side stuck"
+	}
+	return reports, problem
+}
